@@ -35,8 +35,8 @@ for _p, _w in {
  "C01": "the exclusive CPU sets of all live containers (white-box grants) are compared pairwise, against every other container's told cpuset (runtime model), every pool's shared set (white-box and advertised zones), the configured available set and the reserved set with the documented reserved-class rule",
  "C02": "balloon cpusets, membership, told cpusets, shared idle CPUs (scope computed from the hardware model), per-type limits, request coverage and CPU class assignments are checked against the configuration and the model",
  "C03": "per-pool capacity ledgers (sum of grant portions vs. shared/reserved CPUs left in the subtree), non-empty pinning, a reference implementation of the documented eligibility table and the kubelet shares formula are evaluated for every live container",
- "C04": "each container's told cpuset.mems is compared with the policy allocator's AssignedZone, checked for existence/memory against the model, and every subset of memory nodes is checked for capacity",
- "C05": "the runtime reference model (creation values overlaid by every adjustment, update and push) is compared field by field with the cache, pending marks are inspected, and each reply is checked for duplicate or dead targets",
+ "C04": "each container's told cpuset.mems is compared with the policy allocator's AssignedZone, checked for existence/memory against the model (also for containers whose allocation failed and that were told a fallback set), and every subset of memory nodes is checked for capacity",
+ "C05": "the runtime reference model (creation values overlaid by every adjustment, update and push) is compared field by field with the cache, pending marks are inspected, each reply is checked for duplicate or dead targets, and a difference left behind by a failed request is attributed to the kind of request that last changed the container's cached values (so only the listed kinds count as known)",
  "C09": "no grant, balloon membership or memory request may belong to a non-live container, and after a generated drain the policy state is compared with a pristine instance of the final configuration",
  "C12": "every adjustment, update and push addressed to an opted-out container is inspected before it is applied to the runtime model",
 }.items():
@@ -44,7 +44,7 @@ for _p, _w in {
 
 
 TEXT["C10"] = {
- "level_text": "Fault enumeration plus generated content: rapid-generated caches (pods, containers with every persisted field class, policy/config entries) are saved and re-loaded (round trip through a fresh cache object), then the save is repeated under injected faults at every system call of the save path in turn (SIGKILL before/after each open/write/fsync/rename/close via strace -e inject in a re-executed helper process, plus ENOSPC/EIO/EDQUOT write and rename errors and an RLIMIT_FSIZE cut) and the state directory is loaded again: the result must be exactly the old or exactly the new snapshot. Refusal cases (bad permissions, symlink, unknown version, truncated/corrupt file) are generated as well.",
+ "level_text": "Fault enumeration plus generated content: rapid-generated caches (pods, containers with every persisted field class, policy/config entries) are saved and re-loaded (round trip through a fresh cache object), then the save is repeated under injected faults at every system call of the save path in turn (SIGKILL before/after each open/write/fsync/rename/close via strace -e inject in a re-executed helper process, plus ENOSPC/EIO/EDQUOT write and rename errors and an RLIMIT_FSIZE cut) and the state directory is loaded again: the result must be exactly the old or exactly the new snapshot; after an injected error the helper retries the save in-process and, if that returned nil, the directory must hold exactly the new snapshot. Refusal cases (bad permissions, symlink, unknown version, truncated/corrupt file) are generated as well.",
  "level_note": "Trusted: strace fault injection addresses only the cache file paths (-P); the crash points are the system calls the save path issues on this platform, not power-loss reorderings below the file system. Normalises affinity value order only.",
 }
 TEXT["C11"] = {
@@ -60,7 +60,7 @@ TEXT["C14"] = {
  "level_note": _HIST_NOTE + " Native byte-level fuzzing is not part of the quick tier.",
 }
 TEXT["C15"] = {
- "level_text": "Generated histories containing concurrent phases (2-5 lifecycle lanes on their own pods, update lanes on distinct existing containers, a configuration update, Synchronize) released at once from separate goroutines on a race-detector build; the detector's reports are read back after every phase (it judges happens-before, so an unserialised access pair is reported whichever order occurred), a watchdog detects deadlock, cache membership must equal the runtime's, every cached decision must have been delivered in a reply of the phase, and all invariant libraries hold after the phase and after each later request. A second unit drives the asynchronous pod-resource fetch through the real cache with generated answer delays and readers.",
+ "level_text": "Generated histories containing concurrent phases (2-5 lifecycle lanes on their own pods, update lanes on distinct existing containers, a configuration update, Synchronize) released at once from separate goroutines on a race-detector build; the detector's reports are read back after every phase (it judges happens-before, so an unserialised access pair is reported whichever order occurred), a watchdog detects deadlock, cache membership must equal the runtime's, every cached decision must have been delivered in a reply of the phase, and all invariant libraries hold after the phase and after each later request. The recording stub models the lock the runtime's NRI adaptation holds while delivering a request: unsolicited updates sent from inside a sequentially delivered request, or while the resource manager lock is held during a configuration update, are reported under 'no request deadlocks'. A second unit drives the asynchronous pod-resource fetch through the real cache with generated answer delays and readers.",
  "level_note": _HIST_NOTE + " The Go scheduler, not the harness, chooses interleavings: schedules are sampled, not enumerated; equality with a particular sequential order is checked through invariants and delivered-decision membership, not by enumerating permutations.",
 }
 TEXT["C17"] = {
